@@ -149,3 +149,14 @@ Proof.
       * discriminate.
       * destruct H as [H|[H1 H2]]; [easy|easy].
 Qed.
+
+(* non-vacuity: the interpreted source refuses a stranger and a validator aiming at another one, and lets the admin and a
+   validator removing itself through *)
+Example gate_examples :
+  gate 5 1 x_first_guard_SetPower = Some (Some EPoaNotAnAuthority) /\
+  gate admin_id 1 x_first_guard_SetPower = Some None /\
+  gate 5 1 x_first_guard_RemoveValidator = Some (Some EPoaNotAnAuthority) /\
+  gate 5 (-1) x_first_guard_RemoveValidator = Some (Some ESdkInvalidAddress) /\
+  gate 5 5 x_first_guard_RemoveValidator = Some None /\
+  gate admin_id 5 x_first_guard_RemoveValidator = Some None.
+Proof. vm_compute. repeat split; reflexivity. Qed.
